@@ -129,7 +129,7 @@ class Step:
 
 class World:
     def __init__(self, srv, rng, n_native=None, n_cw20=None, scale_bits=None, rates=None,
-                 pair_plan=None, whitelist_mode=None):
+                 pair_plan=None, whitelist_mode=None, whale=False):
         self.srv, self.rng = srv, rng
         self.nstep = 0
         rng_ = rng
@@ -174,6 +174,12 @@ class World:
         self.digit_denoms = dict((d, "000" + d) for _, d in self.natives)
         for d in self.junk_denoms + sorted(self.digit_denoms.values()):
             bals.append(["attacker", d, str(BAL)])
+        self.whale = whale
+        if whale:
+            # an account holding the largest representable amount of every native coin (used to fill a recipient up to
+            # just below 2^128 before a route pays it)
+            for _, d in self.natives:
+                bals.append(["whale", d, str(M128)])
         r = srv.send({"op": "new", "balances": bals})
         self.codes = r["v"]
         self.factory = self._inst("factory", "owner", {"pair_code_id": self.codes["pair"], "token_code_id": self.codes["cw20"]}, admin="owner")
@@ -239,7 +245,7 @@ class World:
                     if t in p.assets:
                         self.by_allow.append((t[1], who, p.addr))
         # account names with blanks around them are accounts of their own in the simulator (its codec accepts them)
-        self.extra_accounts = [" recv", "recv "]
+        self.extra_accounts = [" recv", "recv "] + (["whale_recv"] if whale else [])
         self.retrack()
 
     # -- construction helpers ------------------------------------------------
